@@ -127,6 +127,7 @@ func LawTestSource(p *Pkg, structs []*Struct, seed uint64, values, hostile int, 
 	"unicode/utf8"
 
 	"github.com/csgura/fp"
+	"github.com/csgura/fp/hlist"
 	"github.com/csgura/fp/mutable"
 )
 `)
